@@ -14,7 +14,7 @@ for pid in sorted(PROPS):
         "thorough_cmd": "./check %s --tier thorough" % pid,
         "evidence_file": "/verif/evidence/%s.json" % pid,
         "replay_cmd_template": "./check replay {path}",
-        "engine": p["engine"],
+        "engine": p["engine"] if isinstance(p["engine"], str) else "+".join(p["engine"]),
         "level_claimed": {"category": "proof", "text": p["level_text"], "design_ref": "DESIGN.md section 7/" + pid},
         "level_note": p["level_note"],
         "technique": p["technique"],
